@@ -52,7 +52,6 @@ structure WF (nrefs : Nat) (r : Record) : Prop where
   matePos_ok : inInt32 r.matePos
   tempLen_ok : inInt32 r.tempLen
   cigar_count : r.cigar.length ≤ 65535
-  cigar_ops : ∀ c ∈ r.cigar, cigarType c ≤ 9
   seq_len : r.seq.length = (r.seqLen + 1) / 2
   qual_len : ∀ q, r.qual = some q → q.length = r.seqLen
   aux_ok : ∀ a ∈ r.aux, auxOK a = true
